@@ -33,7 +33,7 @@ func (s *SeriesPlanner) Process(ctx *shared.PlannerContext) (sql.ISelect, error)
 		From(sql.NewSimpleCol(tableName, "time_series")).
 		AndWhere(
 			sql.Ge(sql.NewRawObject("date"), sql.NewStringVal(FormatFromDate(ctx.From))),
-			sql.Le(sql.NewRawObject("date"), sql.NewStringVal(ctx.To.Format("2006-01-02"))),
+			sql.Le(sql.NewRawObject("date"), sql.NewStringVal(ctx.To.UTC().Format("2006-01-02"))),
 			sql.NewIn(sql.NewRawObject("fingerprint"), sql.NewWithRef(withFPSel)),
 			GetTypes(ctx))
 	if ctx.Limit > 0 {
